@@ -34,6 +34,10 @@ func (n1 jsonNumber) Equals(node JsonNode, metadata ...Metadata) bool {
 }
 
 func (n jsonNumber) hashCode(metadata []Metadata) [8]byte {
+	if n == 0 {
+		// 0 and -0 are equal numbers, so they must hash alike.
+		n = 0
+	}
 	a := make([]byte, 0, 8)
 	b := bytes.NewBuffer(a)
 	binary.Write(b, binary.LittleEndian, n)
